@@ -71,7 +71,7 @@ func (ex *Exec) mathBuiltin(st *State, short, method string, sig *types.Signatur
 			ex.nopanic(st, "decstr", App("dec_str_ok", s), posOfCall(call))
 			return one(App("dec_of_str", s))
 		}
-		e := Fresh("err_decstr", SErr)
+		e := Det("err_decstr", SErr, s)
 		st.AssumeDef(Eq(Eq(e, ErrNil), App("dec_str_ok", s)))
 		return one(&TupleV{Elems: []Val{App("dec_of_str", s), e}})
 	case short == "math.NewInt" || short == "math.NewIntFromUint64" || short == "math.NewIntFromBigInt":
@@ -287,10 +287,22 @@ func (ex *Exec) keeperCall(st *State, name, short, method string, sig *types.Sig
 	for _, a := range all {
 		ss = append(ss, a.Sort)
 	}
+	mkOn := func(prefix string, res *Sort, all []*Term) *Term {
+		var ss []*Sort
+		for _, a := range all {
+			ss = append(ss, a.Sort)
+		}
+		n := prefix + base
+		if d, ok := ufTable[n]; ok && !sameSorts(d.Args, ss) {
+			n = n + "@" + sortsKey(ss)
+		}
+		DeclareUF(n, ss, res)
+		return App(n, all...)
+	}
 	mk := func(prefix string, res *Sort, idx int) *Term {
 		n := prefix + base
 		if idx >= 0 {
-			n = fmt.Sprintf("%s#%d", n, idx)
+			n = fmt.Sprintf("%s_r%d", n, idx)
 		}
 		if d, ok := ufTable[n]; ok && !sameSorts(d.Args, ss) {
 			n = n + "@" + sortsKey(ss)
@@ -316,7 +328,7 @@ func (ex *Exec) keeperCall(st *State, name, short, method string, sig *types.Sig
 	}
 	if isCommandName(method) && hasCtx {
 		w := st.worlds[wid]
-		eff := mk("eff_", SEffect, -1)
+		eff := mkOn("eff_", SEffect, targs) // effects are identified by method and arguments only
 		nx := mk("cmd_", SXState, -1)
 		w.E = ECons(eff, w.E)
 		w.X = nx
